@@ -126,18 +126,18 @@ class C13(Prop):
     id = "C13"
     prop_file = "Props/C13.v"
     rule = ("histories of 3-16 operations (subscribe / subscribe_once / unsubscribe / dispatch task / resume a suspended callback / get with "
-            "and without timeout / advance the clock) on 1-2 names with callbacks suspending 0..2 times and returning None or value+d; "
+            "and without timeout / advance the clock) on 1-2 names with callbacks suspending 0..2 times and returning None or value+d (d of either sign, "
+            "dispatched values chosen so that returned values of 0 and negative values are frequent); "
             "overlapping dispatches arise from suspended callbacks; thorough adds an exhaustive enumeration of short histories.  "
             "Non-trivial = at least one callback awaited while another dispatch of the name is in flight, or a once-wrapper involved; "
             "distinct by (script, ops).")
     assumptions = ["after every operation the harness lets the loop settle: the order in which CPython's ready queue runs callbacks made ready "
                    "in the same iteration is not an input of the model",
-                   "C13_order (callbacks of a dispatch in snapshot order with value threading) is checked by the monitor P13 on the model's and "
-                   "the implementation's log of every explored history; it is not proved for all histories (partial)"]
+                   "the monitor P13 (proved to accept every log of the model: C13_monitor) is also evaluated on the implementation's log of every explored history"]
 
     def _gen(self, rng, nops):
         ncb = rng.randrange(1, 4)
-        script = [[rng.choice([0, 0, 1, 2]), rng.choice([[], [], [1], [10]])] for _ in range(ncb)]
+        script = [[rng.choice([0, 0, 1, 2]), rng.choice([[], [], [1], [10], [-1], [-10]])] for _ in range(ncb)]
         ops = []
         counter = 0
         subs = {0: [], 1: []}
@@ -165,7 +165,7 @@ class C13(Prop):
                     if s[0] == 0 and s in subs[n]:
                         subs[n].remove(s)
             elif r < 0.66:
-                ops.append([3, n, rng.randrange(0, 100)]); suspended.append(counter); counter += 1
+                ops.append([3, n, rng.choice([0, 1, 10, 11, 9, 20, rng.randrange(0, 100)])]); suspended.append(counter); counter += 1
             elif r < 0.86:
                 if not suspended:
                     continue
